@@ -52,6 +52,8 @@ func c11GenMode(mode string) func(seed uint64, tier string) any {
 		r := NewRng(seed)
 		sc := &C11Scenario{Mode: mode, GlobalSeed: r.U64()}
 		nt := r.Range(2, 4)
+		// one default-sides text per scenario: VMs with different flags often configure the same text
+		sharedSide := Pick(r, []string{"20", "6", "f + 10", "b1", "2 | 5", "3a9 + 4", "面数 ?? 6", "3|4", "p1 + 2"})
 		for t := 0; t < nt; t++ {
 			cfg := GenCfg(r)
 			cfg.Lang = r.Intn(3)
@@ -59,7 +61,10 @@ func c11GenMode(mode string) func(seed uint64, tier string) any {
 			cfg.NoStmts = false
 			cfg = cfg.Tame()
 			if mode == "c11" && r.Chance(1, 3) {
-				cfg.DefaultSide = Pick(r, []string{"20", "6", "f + 10", "b1", "2 | 5", "3a9 + 4", "面数 ?? 6"})
+				cfg.DefaultSide = sharedSide
+				if r.Chance(1, 4) {
+					cfg.DefaultSide = Pick(r, []string{"20", "6", "f + 10", "b1", "2 | 5", "3a9 + 4", "面数 ?? 6"})
+				}
 				cfg.NoND = false
 			}
 			if mode == "c11" && r.Chance(1, 3) {
@@ -116,6 +121,10 @@ func c11GenMode(mode string) func(seed uint64, tier string) any {
 					src = g.Program(r.Range(1, 3))
 				}
 				ts.Cmds = append(ts.Cmds, Cmd{Kind: "run", Src: src})
+				if cfg.DefaultSide != "" && r.Chance(1, 2) {
+					// a die without a face count: its sides come from the configured text, compiled on first use
+					ts.Cmds = append(ts.Cmds, Cmd{Kind: "run", Src: Pick(r, []string{"d", "2d + d", "d + 1", "(d)d", "func sd() { return d }; sd() + d"})})
+				}
 				if mode == "c11" && r.Chance(1, 4) {
 					// lazily compiled text (RunExpr): the same few texts are used by VMs with different
 					// flags, in this scenario and in others executed by the same process
